@@ -3,7 +3,9 @@
 The model prints, per reachable state, the history `ops` and the abstract state of the object the last
 operation created.  Here every history is executed through the PUBLIC API only
 (`Graph.bind/unbind/select/with_entrypoint/add_nodes/as_node`, `with_name/with_inputs/with_outputs`,
-`GraphNode.map_over`, `SyncRunner().run`) and after every step every live real object is observed:
+`GraphNode.map_over`, `Graph([graph_node], name=...)` for the model's `wrap` (nesting), `SyncRunner().run`)
+and after every step every live real object is observed -- the receiver, its siblings, and the objects it
+wraps (the graph node inside an outer graph, the graph inside a graph node):
 
  (a) each object's observation equals its own previous observation (receiver unchanged, siblings
      uninfluenced), and the object created by a step equals the object built from its own derivation
@@ -81,6 +83,9 @@ class Catalogue:
         if scenario == "all":
             g = g0()
             return [g, g1(), n["F"], g.as_node()]
+        if scenario == "nest":      # GB of the model: G0 with a binding (tag 0) made before the history starts
+            g = g0().bind(x="bv0")
+            return [g, g.as_node()]
         raise ValueError(scenario)
 
 
@@ -147,6 +152,7 @@ def observe(o, run=True):
             "definition_hash": o.definition_hash, "nodes": tuple(o.nodes), "name": o.name,
             "has_cycles": o.has_cycles, "has_async_nodes": o.has_async_nodes, "strict_types": o.strict_types,
             "@nodes": tuple(id(n) for n in o.nodes.values()),
+            "@nested": tuple(id(n.graph) for n in o.nodes.values() if hasattr(n, "map_config")),
         }
         if run:
             s["run"] = run_graph(o)
@@ -203,15 +209,18 @@ def model_mismatch(abs_obj, snap, real, objs):
         if exp != got:
             bad.append((name, exp, got))
 
-    if abs_obj["kind"] == "graph":
+    if abs_obj["kind"] in ("graph", "outer"):
         if not is_graph(real):
-            return [("kind", "graph", type(real).__name__)], order
+            return [("kind", abs_obj["kind"], type(real).__name__)], order
         seteq("inputs.required", abs_obj["req"], snap["required"])
         seteq("inputs.optional", abs_obj["opt"], snap["optional"])
         seteq("inputs.all", abs_obj["ins"], snap["all"])
         eq("inputs.entrypoints", {k: list(v) for k, v in _fn(abs_obj["eps"]).items()},
            {k: list(v) for k, v in snap["entrypoints"]})
-        eq("bound", {k: repr("bv%d" % t) for k, t in _fn(abs_obj["bound"]).items()}, dict(snap["bound"]))
+        # what the graph shows as bound: the bindings inherited from a nested graph (under the names its
+        # wrapper exposes), overridden by the graph's own ones
+        shown = dict(_fn(abs_obj["ibound"]), **_fn(abs_obj["bound"]))
+        eq("bound", {k: repr("bv%d" % t) for k, t in shown.items()}, dict(snap["bound"]))
         eq("outputs", list(abs_obj["outs"]), list(snap["outputs"]))
         eq("selected", list(abs_obj["sel"]["v"]) if abs_obj["sel"]["set"] else None,
            None if snap["selected"] is None else list(snap["selected"]))
@@ -219,6 +228,8 @@ def model_mismatch(abs_obj, snap, real, objs):
            None if snap["entrypoints_config"] is None else list(snap["entrypoints_config"]))
         eq("nodes", list(abs_obj["nodes"]), list(snap["nodes"]))
         eq("name", abs_obj["name"], snap["name"])
+        if abs_obj["kind"] == "outer":
+            eq("wraps", True, len(real.nodes) == 1 and next(iter(real.nodes.values())) is objs[abs_obj["wraps"] - 1])
         return bad, order
     if is_graph(real):
         return [("kind", abs_obj["kind"], "Graph")], order
@@ -229,6 +240,8 @@ def model_mismatch(abs_obj, snap, real, objs):
         mc = snap.get("map_config", "missing")
         eq("map_over", list(abs_obj["mapo"]), [] if mc is None else (list(mc[0]) if mc != "missing" else mc))
         eq("wraps", True, real.graph is objs[abs_obj["wraps"] - 1])
+        # the inputs with a fallback inside the wrapped graph (bound or defaulted there)
+        eq("defaults", sorted(abs_obj["dflt"]), sorted(d[0] for d in snap["defaults"] if d[1] is True))
     else:
         eq("defaults", sorted(abs_obj["dflt"]), sorted(d[0] for d in snap["defaults"] if d[1] is True))
     return bad, order
@@ -283,6 +296,8 @@ def api_apply(cat, op, recv, k):
         return _rename_call(recv, name, _pairs(arg))
     if name == "map_over":
         return recv.map_over(arg[0])
+    if name == "wrap":              # nesting: the outer graph around one graph node
+        return Graph([recv], name=arg[0])
     raise ValueError(name)
 
 
